@@ -1,6 +1,7 @@
 (* Reusable facts about the list / array utilities of Base/Prelude.v and the bounded
    loop `loopP` of Model/Api.v. *)
 From Ase Require Import Base.Prelude Model.Api.
+From Ase Require Export Base.PreludeFacts.
 
 (* ------------------------------------------------------------------ *)
 (* nthz *)
